@@ -8,3 +8,4 @@ import CheetahModel.Properties.C09
 #print axioms C09.tdc_off
 #print axioms C09.zero_length_identity
 #print axioms C09.guard_bound_cos
+#print axioms C09.bmadx_quad_off_bound
